@@ -4,6 +4,7 @@
 #include "vpbt.h"
 #include <igris/dprint.h>
 #include <igris/util/numconvert.h>
+#include <igris/defs/vt100.h>
 #include <string>
 
 using namespace vpbt;
@@ -305,7 +306,14 @@ static void t_ato(Src &s, Case &c)
         c.label("alnum_terminator");
     check_parse(k, v, base, casebits, term, tail, with_end);
 }
-VP_TARGET("ato", t_ato,
+#ifdef C07_VARIANT_UCHAR
+// the same target in a build where plain char is unsigned (-funsigned-char, the default on ARM and RISC-V targets —
+// the library's main audience): variant "uchar" of the propdef
+#define C07_ATO_NAME "ato_uchar"
+#else
+#define C07_ATO_NAME "ato"
+#endif
+VP_TARGET(C07_ATO_NAME, t_ato,
           "igris_ato{i,u}{8..64}: canonical text of a boundary-biased value (letters in random case) in base "
           "2..36, followed by any byte that cannot continue the number (+ tail); non-trivial = |value| >= base");
 
@@ -351,6 +359,30 @@ static void t_ato_empty(Src &s, Case &c)
 VP_TARGET("ato_empty", t_ato_empty,
           "igris_ato{i,u}{8..64} on a text without digits: optional '-' (signed parsers) followed by NUL or any byte that cannot continue the number in "
           "the base, the end cursor re-used from an earlier call: value 0 and end at the terminator; every case non-trivial");
+
+// vt100_left (igris/defs/vt100.h): ESC [ <decimal count> D, NUL terminated, returns the length. Rendered into an
+// exactly-sized block pre-filled with a pattern: the text, the terminator right behind it, the returned length, and not a
+// byte more.
+static void t_vt100(Src &s, Case &c)
+{
+    int n = s.coin() ? (int)s.range(0, 300) : s.biased_int<int32_t>();
+    char ref[32];
+    int len = snprintf(ref, sizeof ref, "\x1B[%dD", n);
+    size_t slack = (size_t)s.below(3); // 0: exact fit (ASan guards the next byte); else: pattern bytes behind must survive
+    Exact blk((size_t)len + 1 + slack);
+    memset(blk.p, 0x5a, blk.n);
+    int ret = vt100_left(blk.c(), n);
+    c.log("vt100_left(%d) slack=%zu", n, slack);
+    c.nontrivial = n >= 10 || n < 0;
+    VP_CHECK(ret == len, "vt100_left_return", "vt100_left(%d) returned %d, the sequence has %d characters", n, ret, len);
+    VP_CHECK(memcmp(blk.p, ref, (size_t)len) == 0 && blk.p[len] == 0, "vt100_left_text", "vt100_left(%d) wrote %s, want ESC[%dD and a terminator", n,
+             hexdump(blk.p, (size_t)len + 1, 24).c_str(), n);
+    for (size_t i = 0; i < slack; i++)
+        VP_CHECK(blk.p[(size_t)len + 1 + i] == 0x5a, "vt100_left_beyond", "vt100_left(%d) changed the byte %zu behind its terminator", n, i + 1);
+}
+VP_TARGET("vt100", t_vt100,
+          "vt100_left(buf, n) for n in 0..300 and boundary-biased 32-bit values into an exactly-sized (or up to 2 bytes larger, pattern-filled) block: returned length, text, "
+          "terminator right behind the text, nothing else written; non-trivial = multi-digit or negative count");
 
 // ------------------------------------------------------------ libc itoa
 static void t_libc_itoa(Src &s, Case &c)
